@@ -1,6 +1,7 @@
 """Generated-code probes: a scratch Go module whose executor is generated at
 check time by api.Generate from /repo's current templates."""
 import glob
+import json
 import os
 import shutil
 import subprocess
@@ -68,6 +69,11 @@ def make_probe(probe, cfgname, scratch, env):
     r = subprocess.run(["go", "run", "gen_main.go"], cwd=d, env=env, capture_output=True, text=True)
     if r.returncode != 0:
         return d, "generation failed for probe %s/%s:\n%s" % (probe, cfgname, (r.stdout + r.stderr)[-3000:])
+    if probe == "core":
+        # what the harnesses need to know about the generator configuration
+        open(os.path.join(d, "graph", "zz_probe_config.go"), "w").write(
+            "package graph\n\nconst probeConfigName = %s\n\nconst probeCallArgumentDirectivesWithNull = %s\n"
+            % (json.dumps(cfgname), "true" if "call_argument_directives_with_null: true" in extra else "false"))
     open(os.path.join(d, ".generated"), "w").write("ok")
     return d, None
 
